@@ -86,9 +86,25 @@ private:
         }
     }
 
+    // public types and messages are visible as `<schema>::types::<name>` and
+    // `<schema>::messages::<name>` from the generated code located in these
+    // namespaces, `std` there hides the `std` namespace this code uses
+    template<typename T>
+    static void validate_public_name(const T& entity)
+    {
+        if(entity.name == "std")
+        {
+            throw_error(
+                "{}: name `{}` is reserved for generated code",
+                entity.location,
+                entity.name);
+        }
+    }
+
     void validate_message(const sbe::message& m)
     {
         validate_name(m);
+        validate_public_name(m);
         validate_level_members(m.members);
     }
 
@@ -155,6 +171,7 @@ private:
                 [this](const auto& enc)
                 {
                     validate_encoding(enc);
+                    validate_public_name(enc);
                 },
                 enc);
         }
